@@ -50,8 +50,8 @@ impl Check for C03 {
     }
     fn runs(&self, tier: Tier) -> u64 {
         match tier {
-            Tier::Quick => 200_000,
-            Tier::Thorough => 10_000_000,
+            Tier::Quick => 2_500_000,
+            Tier::Thorough => 75_000_000,
         }
     }
 
